@@ -119,6 +119,9 @@ Rules(c, o) ==
   \cup { <<"C14.assertion.complete:" \o e, MustAccept(c.a, c.cfg, HTTPMaxAge, HTTPOffset) => o[e].v = "accept">> : e \in {"bearerP", "bearerL", "tenantP", "tenantL"} }
   \* identity probe: a code issued to the probe client is redeemed only if the assertion authenticates exactly that client
   \cup { <<"C14.assertion.probe:" \o e, (o[e].v = "accept") => ProbeClient(c) = IssClient(c.a)>> : e \in {"codeP", "codeL", "introP", "introL"} }
+  \* C05: the token / introspection endpoints act for a private_key_jwt client only on an assertion that is valid for THAT client:
+  \* signed with a key the storage holds for it and naming it as issuer - whatever subject a delegation-tolerant verifier lets pass
+  \cup { <<"C05.assertion.client:" \o e, (o[e].v = "accept") => (ProbeClient(c) = IssClient(c.a) /\ Signed(c.a))>> : e \in {"codeP", "codeL", "introP", "introL"} }
   \cup { <<"C14.assertion.complete:" \o e, (MustAccept(c.a, c.cfg, HTTPMaxAge, HTTPOffset) /\ ProbeClient(c) = IssClient(c.a)) => o[e].v = "accept">> : e \in {"codeP", "codeL", "introP", "introL"} }
 Check(c, o) == {r[1] : r \in {x \in Rules(c, o) : ~x[2]}}
 Conforms(c, o) == \E d \in Outcomes(c) : \A e \in DOMAIN d : o[e].v = d[e].v
